@@ -134,7 +134,8 @@ def jobs_for(tier, extra_seeds=()):
     seeds = SEEDS + list(extra_seeds)
     for p in ("python", "rust", "dotnet"):
         jobs += [(p, "committed", s, h) for s in seeds for h in HISTS]
-        jobs += [(p, "extended", s, h) for s in ["1", "2", "3", "random"] + list(extra_seeds) for h in ("fresh", "after-other-model")]
+        jobs += [(p, "extended", s, "fresh") for s in ["1", "2", "3", "random"] + list(extra_seeds)]
+        jobs += [(p, "extended", s, "after-other-model") for s in ("1", "2")]
     jobs += [("testdata", "small", s, h) for s in seeds for h in HISTS]
     jobs += [("testdata", "small-ext", s, "fresh") for s in ("1", "2", "3")]
     if tier == "thorough":
